@@ -72,3 +72,11 @@ func (c *Collector) Finish() int {
 	c.R.Extra("scenarios", c.Stats)
 	return c.R.Finish(c.Exhaustive)
 }
+
+// Def is one scenario with its bounds per tier.
+type Def struct {
+	Build    func() *vsched.Scenario
+	Name     string
+	Quick    vsched.Bounds
+	Thorough vsched.Bounds
+}
